@@ -133,7 +133,23 @@ Rows == <<
   <<"PTI", "PTI", "bits", 0, 0, 8>>,
   <<"AuthenticationParameterRAND", "RANDValue", "bytes", 0, 16, 0>>,
   <<"AuthenticationParameterAUTN", "AUTN", "bytes", 0, 16, 0>>,
-  <<"AuthenticationResponseParameter", "RES", "bytes", 0, 16, 0>> >>
+  <<"AuthenticationResponseParameter", "RES", "bytes", 0, 16, 0>>,
+  \* 5G-S-TMSI (figure 9.11.3.4.5) and 5G-GUTI (figure 9.11.3.4.1); "wide": first octet, bits in front of the field in that octet, width
+  <<"TMSI5GS", "TypeOfIdentity", "bits", 0, 0, 3>>,
+  <<"TMSI5GS", "AMFSetID", "wide", 1, 0, 10>>,
+  <<"TMSI5GS", "AMFPointer", "bits", 2, 0, 6>>,
+  <<"TMSI5GS", "TMSI5G", "bytes", 3, 4, 0>>,
+  <<"GUTI5G", "TypeOfIdentity", "bits", 0, 0, 3>>,
+  <<"GUTI5G", "MCCDigit2", "bits", 1, 4, 4>>,
+  <<"GUTI5G", "MCCDigit1", "bits", 1, 0, 4>>,
+  <<"GUTI5G", "MNCDigit3", "bits", 2, 4, 4>>,
+  <<"GUTI5G", "MCCDigit3", "bits", 2, 0, 4>>,
+  <<"GUTI5G", "MNCDigit2", "bits", 3, 4, 4>>,
+  <<"GUTI5G", "MNCDigit1", "bits", 3, 0, 4>>,
+  <<"GUTI5G", "AMFRegionID", "bits", 4, 0, 8>>,
+  <<"GUTI5G", "AMFSetID", "wide", 5, 0, 10>>,
+  <<"GUTI5G", "AMFPointer", "bits", 6, 0, 6>>,
+  <<"GUTI5G", "TMSI5G", "bytes", 7, 4, 0>> >>
 RowOf(e) == LET S == {i \in 1..Len(Rows) : Rows[i][1] = e.type /\ Rows[i][2] = e.acc} IN IF S = {} THEN 0 ELSE CHOOSE i \in S : TRUE
 Pow2(n) == 2^n
 ExplainBits(e, r) ==
@@ -151,6 +167,28 @@ ExplainBits(e, r) ==
         <<\A j \in 1..Len(e.clear) : e.clear[j] = (IF j = idx THEN 255 - mask ELSE 255), "Set" \o e.acc \o "(0) on an all-ones element touches bits outside the field: " \o Str(e.clear)>>,
         <<e.getOnes = Pow2(w) - 1, "Get" \o e.acc \o " on an all-ones element returns " \o Str(e.getOnes) \o ", the field is " \o Str(w) \o " bits wide">>,
         <<badGets = {}, IF badGets = {} THEN "" ELSE "Get" \o e.acc \o " reads a bit outside octet " \o Str(r[4]) \o " bits " \o Str(sh + w) \o ".." \o Str(sh + 1) \o " (or misses one inside): " \o Str(e.getBits[CHOOSE k \in badGets : TRUE])>> >>)
+\* a field wider than one octet: it starts r[5] bits into octet r[4] of the value part and is r[6] bits long, most significant bit first.
+\* Set is judged on the field's own bits (on an all-zero element nothing else may appear; written over an all-ones element the field
+\* must hold exactly the new value - what the setter does to the neighbouring field in that case is not claimed here)
+ExplainWide(e, r) ==
+   LET start == 8 * r[4] + r[5] w == r[6]
+       BitOf(v, i) == (v[(i \div 8) + 1] \div Pow2(7 - (i % 8))) % 2
+       FieldOf(v) == LET S[j \in 0..w] == IF j = 0 THEN 0 ELSE 2 * S[j - 1] + BitOf(v, start + j - 1) IN S[w]
+       Outside(v) == {i \in 0..(8 * Len(v) - 1) : (i < start \/ i >= start + w) /\ BitOf(v, i) = 1}
+       badSets == {k \in 1..Len(e.sets) : FieldOf(e.sets[k][2]) # e.sets[k][1] % Pow2(w) \/ Outside(e.sets[k][2]) # {}}
+       badOver == {k \in 1..Len(e.over) : FieldOf(e.over[k][2]) # e.over[k][1] % Pow2(w)}
+       getOk(g) == LET i == 8 * g[1] + (7 - g[2]) IN g[3] = (IF i >= start /\ i < start + w THEN Pow2(w - 1 - (i - start)) ELSE 0)
+       badGets == {k \in 1..Len(e.getBits) : ~getOk(e.getBits[k])}
+   IN FirstBad(<<
+        <<~e.panic, "the accessor panicked">>,
+        <<e.kind = "wide", "accessor is not a 16-bit field accessor">>,
+        <<(start + w + 7) \div 8 <= e.valueLen, "the element is shorter than the field position">>,
+        <<badSets = {}, IF badSets = {} THEN "" ELSE "Set" \o e.acc \o "(" \o Str(e.sets[CHOOSE k \in badSets : TRUE][1]) \o ") on an all-zero element gives " \o Str(e.sets[CHOOSE k \in badSets : TRUE][2])
+                       \o ", TS 24.501 puts the " \o Str(w) \o "-bit field at bit " \o Str(start) \o " of the value part">>,
+        <<badOver = {}, IF badOver = {} THEN "" ELSE "Set" \o e.acc \o "(" \o Str(e.over[CHOOSE k \in badOver : TRUE][1]) \o ") over an element that holds another value leaves " \o Str(e.over[CHOOSE k \in badOver : TRUE][2])
+                       \o ": the field does not hold the new value">>,
+        <<e.getOnes = Pow2(w) - 1, "Get" \o e.acc \o " on an all-ones element returns " \o Str(e.getOnes) \o ", the field is " \o Str(w) \o " bits wide">>,
+        <<badGets = {}, IF badGets = {} THEN "" ELSE "Get" \o e.acc \o " reads a bit outside the field (or misses one inside): " \o Str(e.getBits[CHOOSE k \in badGets : TRUE])>> >>)
 ExplainBytes(e, r) ==
    LET st == r[4] n == r[5] IN
    FirstBad(<<
@@ -161,7 +199,7 @@ ExplainBytes(e, r) ==
 Explain(e) == IF e.ev # "Field" THEN No("no action of the specification matches this event")
               ELSE LET i == RowOf(e) IN
                    IF i = 0 THEN Ok                       \* an accessor without a row is not claimed
-                   ELSE LET r == IF Rows[i][3] = "bits" THEN ExplainBits(e, Rows[i]) ELSE ExplainBytes(e, Rows[i]) IN
+                   ELSE LET r == IF Rows[i][3] = "bits" THEN ExplainBits(e, Rows[i]) ELSE IF Rows[i][3] = "wide" THEN ExplainWide(e, Rows[i]) ELSE ExplainBytes(e, Rows[i]) IN
                         IF r.ok THEN r ELSE No("C09: " \o e.type \o ": " \o r.why)
 Init == l = 1 /\ bad = 0
 Next == /\ l <= Len(Trace)
